@@ -172,6 +172,12 @@ def check(ctx):
     n_tw = check_pairs(ctx, pairs_for("C28"))
     ctx.count("twin_pairs", n_tw)
     ctx.floor("twin_pairs", 5)
+    # ---------------- sampling without replacement cannot be assembled from independent chunks: refused for ANY multi-chunk output
+    for rel in ("dask/array/random.py", "dask/array/_array_expr/random.py"):
+        vp_ = ctx.model.module(rel).func("_choice_validate_params")
+        gs = [n for n in ast.walk(vp_) if isinstance(n, ast.If) and "not replace" in unparse(n.test)]
+        ok = len(gs) == 1 and eqv(gs[0].test, "not replace and any((len(c) > 1 for c in chunks))") and any(isinstance(s_, ast.Raise) for s_ in gs[0].body)
+        ctx.ob("DOM.choice.no-replace.single-chunk", vp_, f"{rel}: replace=False raises NotImplementedError as soon as any axis of the output has more than one chunk", ok, "" if ok else "chunks drawn independently repeat values: choice(12, size=(2,6), replace=False, chunks=(2,3)) has duplicates")
 
 
 VARIANTS = [
